@@ -48,8 +48,8 @@ Module Names.
 Import Coq.Strings.String.
 (* OBLIGATION *)
 Theorem translated_functions :
-  T.translated = ["Add"; "Clear"; "Contains"; "Difference"; "Empty"; "Intersection"; "New"; "NewWith"; "Remove"; "Size"; "Union"; "Values"]%string
-  /\ T.skipped = ["String"]%string /\ T.not_selected = [].
+  T.translated = ["Add"; "All"; "Any"; "Clear"; "Contains"; "Difference"; "Empty"; "Find"; "Intersection"; "Map"; "New"; "NewWith"; "Remove"; "Select"; "Size"; "Union"; "Values"]%string
+  /\ T.skipped = ["Each"; "String"]%string /\ T.not_selected = [].
 Proof. repeat split. Qed.
 Print Assumptions translated_functions.
 End Names.
